@@ -16,14 +16,19 @@ func init() { Registry["C19"] = c19; AlwaysWhole["C19"] = true }
 var c19Packages = []string{
 	"network/dag", "network/dag/tree", "network/transport/v2", "network/transport/v2/gossip", "network/transport/grpc", "network/transport",
 	"vdr/resolver", "vdr/didnuts", "vdr/didnuts/didstore", "vdr/didweb", "vdr/didkey", "vdr/didjwk", "vdr/didx509",
-	"vcr/pe", "vcr/verifier", "vcr/credential", "vcr/revocation", "vcr/signature", "vcr/signature/proof", "vcr/issuer", "vcr/holder", "vcr/openid4vci", "vcr/api/openid4vci/v0", "vcr",
+	"vcr/pe", "vcr/verifier", "vcr/credential", "vcr/credential/store", "vcr/revocation", "vcr/signature", "vcr/signature/proof", "vcr/issuer", "vcr/holder", "vcr/openid4vci", "vcr/api/openid4vci/v0", "vcr",
 	"crypto/dpop", "crypto", "crypto/jwx", "http/tokenV2", "discovery", "discovery/api/server", "discovery/api/server/client",
 	"auth/api/iam", "auth/client/iam", "auth/oauth", "auth/services/oauth", "auth/api/auth/v1", "jsonld", "policy",
+	// second ring: packages that see remote documents, tokens or peer data after a first parser has accepted them
+	// (the engine roots network, pki, vdr, http/user and auth/services/selfsigned are NOT in scope: their panic-capable sites are
+	// life-cycle invariants — fields set in Configure/Start — which these detectors cannot tell from input handling)
+	"auth/services/irma", "auth/services/notary", "auth/contract", "auth/services",
+	"didman", "vdr/didnuts/util", "crypto/hash", "vcr/trust", "vcr/types", "golden_hammer",
 }
 
 func c19(r *Report) {
 	p := r.P
-	r.Explanation = "Static decision of panic- and hang-freedom conditions in the packages that parse untrusted input (" + fmt.Sprint(len(c19Packages)) + " packages, production files): every construct of six panic-capable kinds is enumerated from the SSA form — D1 unchecked type assertion, D2 dereference of an optional (json omitempty) pointer field, D3 dereference of a result whose error was discarded, D4 use of a pointer/interface field that the package itself compares with nil elsewhere, D5 explicit panic, D6 dereference of the result of a function that can return (nil, nil), explicitly or by tolerating its callee's error — and each is either discharged by a recognised dominating guard (comma-ok assertion on the same access path, nil test on the same access path, value whose producers all return that concrete type), or is listed in the reviewed-safe table (one named construct + reason), or is reported. Termination: each resolver that follows references stored in untrusted documents keeps its fuel (depth gate before recursion, depth+1 passed), and the IBLT decode loop continues only after recording the peeled key in a set it refuses to revisit."
+	r.Explanation = "Static decision of panic- and hang-freedom conditions in the packages that parse untrusted input (" + fmt.Sprint(len(c19Packages)) + " packages, production files): every construct of seven panic-capable kinds is enumerated from the SSA form — D1 unchecked type assertion, D2 dereference of an optional (json omitempty) pointer field, D3 dereference of a result whose error was discarded, D4 use of a pointer/interface field that the package itself compares with nil elsewhere, D5 explicit panic, D6 dereference of the result of a function that can return (nil, nil), explicitly or by tolerating its callee's error, D7 a number decoded from input (json/protobuf field) used as a slice bound, index or allocation size without dominating lower- and upper-bound comparisons — and each is either discharged by a recognised dominating guard (comma-ok assertion on the same access path, nil test on the same access path, value whose producers all return that concrete type), or is listed in the reviewed-safe table (one named construct + reason), or is reported. Termination: each resolver that follows references stored in untrusted documents keeps its fuel (depth gate before recursion, depth+1 passed), and the IBLT decode loop continues only after recording the peeled key in a set it refuses to revisit."
 	r.NotDecided = []string{"index out of range and slice bounds in general", "integer conversions, memory exhaustion (e.g. gzip expansion of status lists)", "panics inside dependencies", "termination of loops other than the listed fuel checks", "nil results of calls whose error was checked but which may return (nil, nil)"}
 	r.Assumptions = []string{"net/http recovers panics in request goroutines; panics in background goroutines (network handlers, notifiers, discovery refresh) terminate the process", "go-did leaves optional pointer fields nil when absent"}
 
@@ -58,6 +63,13 @@ func c19(r *Report) {
 	r.Extra["reviewed_table_entries"] = len(c19Reviewed)
 	r.Extra["reviewed_entries_matched"] = len(used)
 
+	// reviewed-safe entries whose reason is itself a checkable guard are re-checked here (the table must not outlive its reasons)
+	// — matchBasic dereferences candidate.VC after returning early when any descriptor is unmatched:
+	mb := p.Func("vcr/pe", "PresentationDefinition", "matchBasic")
+	r.Gate(Gate{ID: "C19.reviewed.matchBasic-returns-early-if-any-unmatched", Fn: mb, Effect: CallEffect(Fn("github.com/nuts-foundation/go-did/vc", "VerifiableCredential", "Format")),
+		Check: CmpCheck("len(descriptorsNotMatched) > 0 is false", token.LSS, IntV(0), LenV(AnyV()), false)})
+	r.MustReach(MustReach{ID: "C19.reviewed.matchBasic-records-every-unmatched", Fn: mb, Cond: CmpCheck("candidate.VC == nil", token.EQL, FieldV("Candidate", "VC"), NilV(), true),
+		Target: Callee{Desc: "append", M: func(cc *ssa.CallCommon) bool { b, ok := cc.Value.(*ssa.Builtin); return ok && b.Name() == "append" }}})
 	// positive control: the detectors must fire on the fixture
 	c19Fixture(r)
 
@@ -84,13 +96,27 @@ func c19Fixture(r *Report) {
 	for _, s := range sites {
 		got[s.Detector] = true
 	}
-	for _, d := range []string{"D1.unchecked-assertion", "D2.optional-pointer-deref", "D3.discarded-error-deref", "D4.nil-checked-elsewhere", "D5.explicit-panic", "D6.nil-nil-result-deref"} {
+	for _, d := range []string{"D1.unchecked-assertion", "D2.optional-pointer-deref", "D3.discarded-error-deref", "D4.nil-checked-elsewhere", "D5.explicit-panic", "D6.nil-nil-result-deref", "D7.input-number-as-bound"} {
 		if !got[d] {
 			r.Undecided("C19.fixture", rule, "", "detector "+d+" did not fire on the fixture")
 			return
 		}
 	}
-	r.OK("C19.fixture", rule, "", fmt.Sprintf("%d fixture sites reported by all five detectors", len(sites)), false)
+	// precision control: the two-sided guard in d7ok must not be reported; d7 must be reported twice
+	n7, okFlagged := 0, false
+	for _, s := range sites {
+		if s.Detector == "D7.input-number-as-bound" {
+			n7++
+			if s.Fn.Name() == "d7ok" {
+				okFlagged = true
+			}
+		}
+	}
+	if okFlagged || n7 != 2 {
+		r.Undecided("C19.fixture", rule, "", fmt.Sprintf("D7 precision control failed: %d D7 sites, guarded site flagged=%v", n7, okFlagged))
+		return
+	}
+	r.OK("C19.fixture", rule, "", fmt.Sprintf("%d fixture sites reported by all seven detectors; the guarded D7 variant is not reported", len(sites)), false)
 }
 
 // c19DecodeFuel: in Iblt.Decode every assignment `updated = true` (which is what lets the unbounded loop continue) is
